@@ -8,6 +8,7 @@ SRC = "engines/opx/sc_c08.cpp"
 def prebuild():
     opxlib.build("sc_c08", SRC)
     wmmlib.build()
+    wmmlib.build_sys()
 
 
 def jobs(tier):
@@ -91,10 +92,18 @@ def run(ctx):
     batch = ";".join("i%d,g%d" % (i, g) for i in range(1, n + 1) for g in range(1, n))
     rr = vf.run(hq, ["--mode", "counter", "--ops-batch", batch, "--deadline", 300], timeout=1200)
     ctx.absorb(rr, "h_queues(counter)")
+    # whole system on a 128-byte dropping queue: real log calls (some refused), real backend polls and drop reports
+    hs = wmmlib.build_sys()
+    sj = [wmmlib.sys_job(hs, "sysbd", 0, 2, "l1,l2,l3,l4,l5"), wmmlib.sys_job(hs, "sysbd", 0, 3, "l1,l2,l3,l4,x")]
+    if ctx.tier != "quick":
+        sj += [wmmlib.sys_job(hs, "sysbd", 0, 3, "l1,l2,l3,l4,l5,l6", deadline=1500), wmmlib.sys_job(hs, "sysbd", 1, 1, "l1,l2,l3,l4", "l1,l2,l3,l4", deadline=1500)]
+    wmmlib.run_sys(ctx, sj)
     ctx.assumptions.append("three outcomes of a log call: true, false, threw QuillError (accepted only for an unbounded queue and a statement larger than its maximum capacity)")
 
 
 def replay(rep, extra):
+    if wmmlib.is_sys_record(rep["record"]):
+        return wmmlib.replay_sys("C08", rep)
     if rep["record"].get("mode") == "counter":
         exe = wmmlib.build()
         args = []
